@@ -15,8 +15,8 @@ from harness import common as C
 from harness import leanio, symobj
 
 PROPERTY = "C07"
-LEAN_TARGETS = ["VectorModel.Props.C07"]
-THEOREM_FILES = ["VectorModel/Props/C07.lean"]
+LEAN_TARGETS = ["VectorModel.Props.C07", "VectorModel.Props.MethodBackends"]
+THEOREM_FILES = ["VectorModel/Props/C07.lean", "VectorModel/Props/MethodBackends.lean"]
 NEEDS_TRANSLATOR = True
 NOT_COVERED = ["the Numba compiler itself (LLVM code generation): the theorems are about which function is selected and how the result is wrapped",
                "Awkward arrays iterated inside compiled functions: sampled by three compile-and-run probes only"]
@@ -356,6 +356,59 @@ def split_top(body):
     return out
 
 
+MUTATIONS = {
+    2: [("v.rho = 10.0", lambda v: setattr(v, "rho", 10.0)), ("v.x = -3.5", lambda v: setattr(v, "x", -3.5)), ("v *= 2.5", None), ("v += w", None), ("v.phi = 0.25", lambda v: setattr(v, "phi", 0.25))],
+    3: [("v.z = 4.0", lambda v: setattr(v, "z", 4.0)), ("v.theta = 0.5", lambda v: setattr(v, "theta", 0.5)), ("v.eta = -0.75", lambda v: setattr(v, "eta", -0.75)),
+        ("v.rho = 10.0", lambda v: setattr(v, "rho", 10.0)), ("v /= 4", None), ("v -= w", None)],
+    4: [("v.t = 40.0", lambda v: setattr(v, "t", 40.0)), ("v.tau = 5.0", lambda v: setattr(v, "tau", 5.0)), ("v.eta = 0.5", lambda v: setattr(v, "eta", 0.5)),
+        ("v.x = 2.0", lambda v: setattr(v, "x", 2.0)), ("v *= 2.5", None), ("v += w", None)],
+}
+
+
+def mutation_probe_worker(job):
+    """one object passed to compiled code, then MUTATED through the public setters / in-place operators (which may change its stored
+    coordinate system or the Python type of its coordinates), then passed to compiled code again: the compiled function must see the
+    object as it is now.  job = (token of v, token of w, mutation label, integer-valued coordinates?) -> (label, interpreted, compiled)"""
+    tok, tokw, label, ints = job
+    import numba
+    import vector
+    from harness import common as Cm
+    v, w = mkarg(tok), mkarg(tokw)
+    if ints:
+        v = type(v)(**{n: int(round(float(x))) or 1 for n, x in zip(Cm.field_names("m" if isinstance(v, vector.Momentum) else "g", Cm.sig_of(v)), Cm.stored(v))})
+    d = len(Cm.sig_of(v)) + 1
+
+    def f(u):
+        return u
+
+    def g(u):
+        return u.x, u.y, u.rho, u.phi
+
+    def desc(r):
+        if isinstance(r, vector.Vector):
+            return (type(r).__name__, Cm.sig_of(r), [float(x) for x in Cm.stored(r)])
+        return tuple(float(x) for x in r)
+    jf, jg = numba.njit(f), numba.njit(g)
+    try:
+        jf(v), jg(v)                                    # first contact with compiled code
+        mut = dict(MUTATIONS[d])[label]
+        if mut is not None:
+            mut(v)
+        elif label.startswith("v *="):
+            v *= float(label.split("=")[1])
+        elif label.startswith("v /="):
+            v /= float(label.split("=")[1])
+        elif label.startswith("v +="):
+            v += w
+        else:
+            v -= w
+        interp = (desc(f(v)), desc(g(v)))
+        comp = (desc(jf(v)), desc(jg(v)))
+    except Exception as e:  # noqa: BLE001
+        return label, ("raises", type(e).__name__, str(e)[:80]), ("raises",)
+    return label, interp, comp
+
+
 def same(a, b):
     if type(a) is not type(b) or (isinstance(a, tuple) and len(a) != len(b)):
         return False
@@ -454,6 +507,24 @@ def correspondence(ctx):
         akjobs = [(src, r.choice(C.SIG4), 2 * (ctx.seed + k)) for k, src in enumerate(AK_PROBES)] + \
                  [(src, r.choice(C.SIG4), 2 * (ctx.seed + 7 * k + j) + 1) for k, src in enumerate(AK_PROBES) for j in range(2 if ctx.tier == "quick" else 8)]
         akres = pool.map(ak_probe_worker, akjobs)
+        mjobs = []
+        for d in (2, 3, 4):
+            for label, _ in MUTATIONS[d]:
+                fl = r.choice("gm")
+                # start from a stored system the step CHANGES (v.rho = on an x-y vector, v.tau = on a t-stored one, ...)
+                avoid = {"v.rho": "rhophi", "v.phi": "rhophi", "v.x =": "xy", "v.z =": "z", "v.the": "theta", "v.eta": "eta", "v.t =": "t", "v.tau": "tau"}.get(label[:5])
+                starts = [sg for sg in C.SIGS[d] if avoid not in sg] or C.SIGS[d]
+                for ints in ((False, True) if label[2] in "*/" else (False,)):
+                    mjobs.append((symobj.vtoken(fl, r.choice(starts), 1), symobj.vtoken(fl, r.choice(C.SIGS[d]), 2), label, ints))
+        mres = pool.map(mutation_probe_worker, mjobs)
+    for (tok, tokw, label, ints), (_, interp, comp) in zip(mjobs, mres):
+        if interp and interp[0] == "raises" and len(comp) == 1:
+            continue          # the interpreter itself rejects the step (e.g. a setter the class does not have): nothing to compare
+        if not same(interp, comp):
+            dis.append(f"object {tok}{' (integer coordinates)' if ints else ''} passed to compiled code, then `{label}`, then passed again: interpreter sees {str(interp)[:140]}, compiled code {str(comp)[:140]}")
+            fails.append({"key": "numba-after-mutation:" + label, "what": dis[-1][:300], "code": (
+                "import sys; sys.path.insert(0, %r); sys.path.insert(0, %r)\nfrom harness import c07\n"
+                "_, i, c = c07.mutation_probe_worker(%r)\nassert c07.same(i, c), f'interpreter {i} compiled {c}'\n" % (C.VERIF, C.VERIF + "/tools", (tok, tokw, label, ints)))})
     for src, sig, interp, comp in akres:
         if not same(interp, comp):
             dis.append(f"awkward-in-numba probe on {sig}: interpreter {interp}, compiled {comp}: {src.strip()[:80]!r}")
@@ -470,7 +541,7 @@ def correspondence(ctx):
             fails.append({"key": "numba-probe:" + src.split("return")[1].strip()[:30], "what": dis[-1][:300], "code": probe_replay(src, toks)})
     return {"ok": not dis, "disagreements": dis[:12], "failing_inputs": fails[:8],
             "stats": {"traces_validated_against_impl": len(reqs) + len(jobs), "typing_resolutions": len(reqs), "unsupported_by_model": unsupported,
-                      "compile_and_run_probes": len(jobs), "awkward_in_numba_probes": len(akjobs), "known_mixed_flavor_probes": known,
+                      "compile_and_run_probes": len(jobs), "mutation_between_compiled_calls_probes": len(mjobs), "awkward_in_numba_probes": len(akjobs), "known_mixed_flavor_probes": known,
                       "api_sweep_programs": len(ajobs), "api_sweep_expressions": n_api_expr, "api_names_without_template": untemplated},
             "samples": [{"request": reqs[i], "numba": real[i], "model": model_type(model[i])} for i in (0, len(reqs) // 2, len(reqs) - 1)]}
 
